@@ -1,0 +1,191 @@
+//go:build verif
+
+package lsm
+
+import (
+	"errors"
+	"fmt"
+
+	"github.com/feichai0017/NoKV/kv"
+	"github.com/feichai0017/NoKV/utils"
+)
+
+// Table-level accessors for the external verification harness (build tag
+// "verif" only): build an SSTable from a list of entries with a chosen block
+// size inside a harness-owned directory, reopen it from its file, and run
+// Search / Seek / iteration on it.
+
+// VerifTableEnv owns a bare level manager (options + caches) that is enough
+// for tableBuilder.flush, openTable, table.Search and table iterators.
+type VerifTableEnv struct {
+	lm *levelManager
+}
+
+// VerifNewTableEnv creates an environment writing tables into dir.
+// bloomFP <= 0 disables the bloom filter.
+func VerifNewTableEnv(dir string, blockSize int, bloomFP float64) *VerifTableEnv {
+	opt := &Options{
+		WorkDir:            dir,
+		MemTableSize:       1 << 20,
+		SSTableMaxSz:       1 << 26,
+		BlockSize:          blockSize,
+		BloomFalsePositive: bloomFP,
+	}
+	return &VerifTableEnv{lm: &levelManager{opt: opt, cache: newCache(opt)}}
+}
+
+// Close releases the caches of the environment.
+func (env *VerifTableEnv) Close() { _ = env.lm.cache.close() }
+
+// VerifSST is one open table.
+type VerifSST struct {
+	t *table
+}
+
+// VerifBlock is one entry of the table's block index.
+type VerifBlock struct {
+	BaseKey []byte
+	Offset  uint32
+	Len     uint32
+	Entries int // number of entries stored in the block
+}
+
+// VerifBuildTable builds table fid from entries (added in the given order
+// with tableBuilder.AddKey) and opens it through openTable.
+func (env *VerifTableEnv) VerifBuildTable(fid uint64, entries []VerifEntry) (st *VerifSST, err error) {
+	defer func() {
+		if r := recover(); r != nil {
+			st, err = nil, fmt.Errorf("panic: %v", r)
+		}
+	}()
+	b := newTableBuiler(env.lm.opt)
+	for _, ve := range entries {
+		e := &kv.Entry{Key: kv.SafeCopy(nil, ve.Key), Value: kv.SafeCopy(nil, ve.Value), Meta: ve.Meta, ExpiresAt: ve.ExpiresAt}
+		b.AddKey(e)
+	}
+	t := openTable(env.lm, utils.FileNameSSTable(env.lm.opt.WorkDir, fid), b)
+	if t == nil {
+		return nil, errors.New("verif: openTable returned nil")
+	}
+	return &VerifSST{t: t}, nil
+}
+
+// VerifOpenTable opens the existing file of table fid (no builder).
+func (env *VerifTableEnv) VerifOpenTable(fid uint64) (st *VerifSST, err error) {
+	defer func() {
+		if r := recover(); r != nil {
+			st, err = nil, fmt.Errorf("panic: %v", r)
+		}
+	}()
+	t := openTable(env.lm, utils.FileNameSSTable(env.lm.opt.WorkDir, fid), nil)
+	if t == nil {
+		return nil, errors.New("verif: openTable returned nil")
+	}
+	return &VerifSST{t: t}, nil
+}
+
+// CloseKeep closes the file handle but keeps the file on disk.
+func (s *VerifSST) CloseKeep() error { return s.t.closeHandle() }
+
+// CloseDelete drops the table's reference (deletes the file at zero).
+func (s *VerifSST) CloseDelete() error { return s.t.DecrRef() }
+
+func verifEntryOf(e *kv.Entry) VerifEntry {
+	return VerifEntry{Key: kv.SafeCopy(nil, e.Key), Value: kv.SafeCopy(nil, e.Value), Meta: e.Meta, ExpiresAt: e.ExpiresAt}
+}
+
+// Search runs table.Search with *maxVs = maxVs; found=false stands for
+// ErrKeyNotFound, any other error is returned.
+func (s *VerifSST) Search(key []byte, maxVs uint64) (ent VerifEntry, found bool, newMax uint64, err error) {
+	defer func() {
+		if r := recover(); r != nil {
+			err = fmt.Errorf("panic: %v", r)
+		}
+	}()
+	m := maxVs
+	e, serr := s.t.Search(key, &m)
+	if serr != nil {
+		if errors.Is(serr, utils.ErrKeyNotFound) {
+			return VerifEntry{}, false, m, nil
+		}
+		return VerifEntry{}, false, m, serr
+	}
+	return verifEntryOf(e), true, m, nil
+}
+
+// Iterate returns Rewind + Next* in the chosen direction.
+func (s *VerifSST) Iterate(asc bool) []VerifEntry {
+	it := s.t.NewIterator(&utils.Options{IsAsc: asc})
+	defer func() { _ = it.Close() }()
+	var out []VerifEntry
+	for it.Rewind(); it.Valid(); it.Next() {
+		out = append(out, verifEntryOf(it.Item().Entry()))
+	}
+	return out
+}
+
+// SeekIterate returns Seek(key) + Next* in the chosen direction, at most
+// limit entries (limit <= 0: all).
+func (s *VerifSST) SeekIterate(key []byte, asc bool, limit int) (out []VerifEntry, err error) {
+	defer func() {
+		if r := recover(); r != nil {
+			err = fmt.Errorf("panic: %v", r)
+		}
+	}()
+	it := s.t.NewIterator(&utils.Options{IsAsc: asc})
+	defer func() { _ = it.Close() }()
+	for it.Seek(key); it.Valid(); it.Next() {
+		out = append(out, verifEntryOf(it.Item().Entry()))
+		if limit > 0 && len(out) >= limit {
+			break
+		}
+	}
+	return out, nil
+}
+
+// Blocks returns the block index (base key, offset, length, entry count).
+func (s *VerifSST) Blocks() ([]VerifBlock, error) {
+	idx := s.t.index()
+	if idx == nil {
+		return nil, errors.New("verif: no index")
+	}
+	var out []VerifBlock
+	for i, bo := range idx.GetOffsets() {
+		b, err := s.t.loadBlock(i)
+		if err != nil {
+			return nil, err
+		}
+		out = append(out, VerifBlock{BaseKey: kv.SafeCopy(nil, bo.GetKey()), Offset: bo.GetOffset(), Len: bo.GetLen(), Entries: len(b.entryOffsets)})
+	}
+	return out, nil
+}
+
+// RawBlock returns the bytes of block i as stored in the file.
+func (s *VerifSST) RawBlock(i int) ([]byte, error) {
+	bo, ok := s.t.blockOffset(i)
+	if !ok || bo == nil {
+		return nil, errors.New("verif: no such block")
+	}
+	b, err := s.t.read(int(bo.GetOffset()), int(bo.GetLen()))
+	if err != nil {
+		return nil, err
+	}
+	return kv.SafeCopy(nil, b), nil
+}
+
+// Bloom returns the encoded bloom filter (nil if none).
+func (s *VerifSST) Bloom() []byte {
+	idx := s.t.index()
+	if idx == nil {
+		return nil
+	}
+	return kv.SafeCopy(nil, idx.GetBloomFilter())
+}
+
+// Meta returns key count, max version, min key and max key of the table.
+func (s *VerifSST) Meta() (keyCount uint32, maxVersion uint64, minKey, maxKey []byte) {
+	return s.t.KeyCount(), s.t.MaxVersionVal(), kv.SafeCopy(nil, s.t.MinKey()), kv.SafeCopy(nil, s.t.MaxKey())
+}
+
+// VerifBloomBitsPerKey exposes the float computation of the builder.
+func VerifBloomBitsPerKey(n int, fp float64) int { return utils.BloomBitsPerKey(n, fp) }
